@@ -6,8 +6,13 @@ EXTENDS Asn1Lax, Json
 
 AllShapes == DOMAIN Shapes
 \* quick instance: every shape, mode laxAncestor only with the tolerated malformations and a few others
+\* (mode laxAncestor: one string form of every string type and verdict class; the thorough instances have all of them)
+QuickAncestorForms == {"bmpPairInText", "bmpOdd", "utf8Four", "utf8SurrLow", "prAt", "pr7F", "prNul", "ia5High80", "numSlash", "t61High"}
 QuickAncestorDefects == LaxTolerated \cup {"emptyInteger", "nonMinimalLength", "printableIsNeither", "oidArcLeading80",
-                                            "genTimeFraction", "wrongTag"} \cup ClassDefects
+                                            "genTimeFraction", "wrongTag", "explicitEmpty"} \cup ClassDefects \cup QuickAncestorForms
+\* quick instance: the string forms in one shape per way a string reaches the decoder (top level, struct members of every
+\* declared type, SEQUENCE OF elements, interface{}, inside EXPLICIT, behind IMPLICIT tags, top-level EXPLICIT)
+QuickStringShapes == {"str", "strs", "seqstr", "anys", "expl", "impl", "strtag", "topxAP"}
 AllDefects == Defects
 
 Containers == {"struct", "seqof", "setof", "explicit", "optional"}
@@ -20,6 +25,14 @@ Wraps2 == {<<a, b>> : a \in Containers, b \in Containers}
 MCTimeMinutes == {-90, -30, 30, 90}
 MCTimeOffsets == {-720, -60, 0, 60, 330, 840}
 MCTimeOffsetsSmall == {-60, 0, 60}
+\* the two decoders of clause StringTable agree on the same character, and decode the boundary sequences as the standards say
+ASSUME /\ Utf16Dec(<<55357, 56832>>) = <<128512>> /\ Utf8Dec(<<240, 159, 152, 128>>) = <<128512>>
+       /\ Utf16Dec(<<56832, 55357>>) = <<65533, 65533>> /\ Utf16Dec(<<55296, 56320, 56319, 57343>>) = <<65536, 1114111>>
+       /\ Utf8Dec(<<244, 143, 191, 191>>) = <<1114111>> /\ ~WellFormed(Utf8Dec(<<244, 144, 128, 128>>))
+       /\ ~WellFormed(Utf8Dec(<<237, 160, 128>>)) /\ ~WellFormed(Utf8Dec(<<192, 128>>))
+       /\ QuickAncestorForms \subseteq FormNames /\ QuickStringShapes \subseteq DOMAIN Shapes
+\* the lax-only string forms are exactly the PrintableStrings named by the property text
+ASSUME \A f \in LaxOnlyForms : StringForms[f].st = "printable"
 ASSUME StraddleClasses = {<<2050, 2049>>, <<2049, 2050>>, <<1950, 1949>>, <<1949, 1950>>}
 
 \* the type catalogue (plain and inside every container) is printed once
